@@ -846,6 +846,13 @@ def _tet_diagonal(model, rep):
                 if isinstance(x, ast.Subscript) and isinstance(
                     x.slice, ast.Tuple) and isinstance(
                     x.slice.elts[0], ast.Constant)}
+        if any(isinstance(x, ast.Subscript) and isinstance(
+                x.slice, ast.Tuple) and isinstance(
+                x.slice.elts[0], ast.Slice)
+                and x.slice.elts[0].lower is None
+                and x.slice.elts[0].upper is None
+                for x in ast.walk(d.value)):
+            rows = {0, 1, 2}         # newp[:, ...]: all coordinates
         cons = f"MeshTet1._uniform:diagonal-length[{nm}]"
         if rows == {0, 1, 2}:
             rep.ok(R3, cons, "squared Euclidean length over the three "
@@ -1328,6 +1335,11 @@ MUTANTS = [
       "        has_boundaries = self.boundaries is None\n"), "C12-R4"),
 ]
 TWINS = [
+    ("first octahedron diagonal measured over all coordinates at once",
+     (_TE, "        d1 = ((newp[0, t2e[2]] - newp[0, t2e[4]]) ** 2 +\n"
+      "              (newp[1, t2e[2]] - newp[1, t2e[4]]) ** 2)",
+      "        d1 = np.sum((newp[:, t2e[2]] - newp[:, t2e[4]]) ** 2, "
+      "axis=0)")),
     ("refined() recognises counts by their dimension",
      (_ME, "        if isinstance(times_or_ix, (int, np.integer)):",
       "        if np.ndim(times_or_ix) == 0:")),
